@@ -52,7 +52,8 @@ type Scenario struct {
 	T2Max     uint64            `json:"t2max"`
 	Scheme    string            `json:"scheme"`
 	SizeLimit uint64            `json:"size_limit,omitempty"`
-	Expect    string            `json:"expect,omitempty"` // violation class expected by a replay file
+	Ghost     int               `json:"ghost_pm,omitempty"` // permille per scheduler step: a file of a clean run of the last request appears (concurrent request)
+	Expect    string            `json:"expect,omitempty"`   // violation class expected by a replay file
 }
 
 func (s *Scenario) JSON() []byte {
@@ -327,6 +328,43 @@ func RunScenario(t *testing.T, s *Scenario, chk Checker, keepLog bool) (rep *Run
 			}
 			if h.Fresh {
 				disk.Restore(map[string][]byte{})
+			}
+			if s.Ghost > 0 && i == len(s.History)-1 {
+				// files of a concurrent request over the same modules appear while this one runs: they are taken from a
+				// clean run of the same request on its own store and copied in one at a time at scheduler steps
+				cleanSim := NewSim(s.Seed^0x9e3779b9, PolicyCanonical)
+				cleanDisk := NewDisk()
+				cleanEnv := NewEnv(cleanSim, cleanDisk, chain, 1, 0)
+				creq := h.Req
+				creq.CrashAtOp, creq.DisconnectAt = 0, 0
+				cres := cleanEnv.RunRequest(pkg, &creq, nil)
+				if cres.Outcome != OutDone {
+					cleanSim.Kill(cres.Node)
+				}
+				cleanEnv.Settle()
+				curEnv = env
+				ghost := cleanDisk.Snapshot()
+				gkeys := make([]string, 0, len(ghost))
+				for k := range ghost {
+					if !strings.HasSuffix(k, ".spkg") {
+						gkeys = append(gkeys, k)
+					}
+				}
+				sort.Strings(gkeys)
+				prev := sim.OnStep
+				sim.OnStep = func(ss *Sim, label string) {
+					if prev != nil {
+						prev(ss, label)
+					}
+					if len(gkeys) == 0 || int(H(s.Seed, "ghost", fmt.Sprint(ss.Steps()))%1000) >= s.Ghost {
+						return
+					}
+					k := gkeys[int(H(s.Seed, "ghostk", fmt.Sprint(ss.Steps()))%uint64(len(gkeys)))]
+					if _, present := disk.Get(k); !present {
+						disk.Put(k, ghost[k])
+						x.Probes["file_appeared_during_request"]++
+					}
+				}
 			}
 			res := env.RunRequest(pkg, &h.Req, nil)
 			x.Results = append(x.Results, res)
